@@ -41,7 +41,7 @@ func intOf(v []int) (int64, bool) {
 
 type item struct{ k, e, v string }
 
-func itemOfPat(p Pat) item       { return item{p.K, p.E, string(impl.I2B(p.V))} }
+func itemOfPat(p Pat) item        { return item{p.K, p.E, string(impl.I2B(p.V))} }
 func itemOfRep(g impl.Reply) item { return item{g.K, g.E, string(impl.I2B(g.V))} }
 
 func bagEq(a, b []string) bool {
